@@ -67,6 +67,12 @@ def cases(tier, seed):
                             continue
                         for canon in ((True, False) if rep in ("mps", "mps3") and st in ("seeded", "ghz") and scale == 1.0 else (True,)):
                             yield {"rep": rep, "shape": shape, "drive": drive, "state": st, "scale": scale, "canonical": canon, "seed": seed}
+                        if rep == "mps" and scale == 1.0 and st in ("seeded", "w"):
+                            # observables listed in reverse order (an observable may leave the shared state re-centred for the next one)
+                            yield {"rep": rep, "shape": shape, "drive": drive, "state": st, "scale": scale, "canonical": True, "seed": seed, "reverse": True}
+                            # a bond cap / coarse precision that the state itself never reaches (N<=3: bond dimension <= 2): nothing may change
+                            if len(kit.SHAPES[shape]) <= 3:
+                                yield {"rep": rep, "shape": shape, "drive": drive, "state": st, "scale": scale, "canonical": True, "seed": seed, "cap": 2}
     for shape in ("bent3", "zig4"):
         n = len(kit.SHAPES[shape])
         for mask in itertools.product((0, 1), repeat=n):
@@ -234,13 +240,16 @@ def run_case(case):
     if mod is m:
         for b in bonds:
             obs.append(m.EntanglementEntropy(mps_site=b, evaluation_times=ev, tag_suffix=f"b{b}"))
+    if case.get("reverse"):
+        obs = obs[::-1]
     try:
         with contextlib.redirect_stdout(io.StringIO()):
             if mod is sv:
                 cfg = sv.SVConfig(dt=10, krylov_tolerance=1e-10, observables=obs, log_level=logging.CRITICAL, gpu=False, **({"noise_model": noise} if noise else {}), **kw)
                 res = sv.SVBackend(seq, config=cfg).run()
             else:
-                cfg = m.MPSConfig(dt=10, precision=1e-10, observables=obs, log_level=logging.CRITICAL, num_gpus_to_use=0, optimize_qubit_ordering=False, **({"noise_model": noise} if noise else {}), **kw)
+                capkw = {"max_bond_dim": case["cap"]} if case.get("cap") else {}
+                cfg = m.MPSConfig(dt=10, precision=1e-10, observables=obs, log_level=logging.CRITICAL, num_gpus_to_use=0, optimize_qubit_ordering=False, **({"noise_model": noise} if noise else {}), **capkw, **kw)
                 script = {"uniform": [seams.bad_mask_uniform(mask)]} if mask else {}
                 with seams.pulser_np_random(**script), seams.module_random(impl_mod, seams.ScriptedRandom(default_uniform=0.5, default_choice=0)):
                     res = m.MPSBackend(seq, config=cfg).run()
